@@ -1,5 +1,151 @@
-/- C04 — machine-checked witnesses (work in progress) -/
-import Compio.Model.Executor
+/-
+C04 — machine-checked witnesses on the remote-join LTS (Compio.Model.RemoteJoin).
+
+  * `delivery_counterexample_unfixed`  the lost wake-up of the code BEFORE the re-check after
+    `finish_setting_waker::<true>()` (finding F1, repaired): handle parked, task completed, executor
+    done, nobody woken.
+  * `waker_leak_counterexample`        CURRENT code (finding F040): a join waker is still in the slot
+    when the allocation is freed — it is never dropped.
+  * `executor_drop_does_not_wake`      observation on the current code: dropping the executor while the
+    handle is parked drops the waker without waking it.
+-/
+import Compio.Lemmas.RemoteJoin
 
 namespace Compio.Cex.C04
+open Compio.RemoteJoin Compio.TaskWord Compio.Gen
+
+/-- handle: load, start_setting_waker; executor: unschedule, poll Ready, finish_running (sees
+SETTING_WAKER ⇒ no wake), Task::drop, release; handle: write waker 7, finish_setting_waker::<true>,
+returns Pending (old program: no re-check) -/
+def lostWakeTrace : List Label :=
+  [.hPoll 7, .hStartSetting, .eUnschedule, .ePollReady, .eFinishRunning, .eSetDropped, .eClearShared,
+   .eDec, .hWrite, .hFinishTrue]
+
+theorem lost_wake_run_unfixed :
+    ∃ s : RState, Trace false init lostWakeTrace s ∧ Reachable false s ∧
+      s.parked = some 7 ∧ s.hpc = .idle ∧ TaskState.isCompleted s.word = true ∧ ePastWake s = true ∧
+      s.epc = .done ∧ s.woken = [] := by
+  obtain ⟨s, ht, hr, hp⟩ := run_witness (fixed := false) (ls := lostWakeTrace)
+    (p := fun s => decide (s.parked = some 7 ∧ s.hpc = .idle ∧ TaskState.isCompleted s.word = true ∧
+      ePastWake s = true ∧ s.epc = .done ∧ s.woken = [])) (by decide)
+  exact ⟨s, ht, hr, of_decide_eq_true hp⟩
+
+/-- the delivery statement fails for the program before the fix -/
+theorem delivery_counterexample_unfixed : ¬ (∀ s : RState, Reachable false s → deliveryStatement s) := by
+  intro h
+  obtain ⟨s, _, hr, hp, _, hc, he, _, hw⟩ := lost_wake_run_unfixed
+  have := h s hr 7 hp hc he
+  simp [hw] at this
+
+/-- the same interleaving on the CURRENT program: `finish_setting_waker::<true>` returns a completed
+snapshot, the handle reloads, takes the result and, as last holder, drops the waker and frees the task -/
+example : ∃ s : RState, Trace true init
+      (lostWakeTrace ++ [.hReload, .hClearResult, .hTakeResult, .hDec, .hLast]) s ∧
+      s.hret = some true ∧ s.resTaken = 1 ∧ s.resDrops = 0 ∧ s.futDrops = 1 ∧ s.deallocs = 1 ∧
+      s.slot = none ∧ s.slotSets = 1 ∧ s.slotDrops = 1 ∧ s.uaf = 0 ∧ s.bad = 0 := by
+  obtain ⟨s, ht, _, hp⟩ := run_witness (fixed := true)
+    (ls := lostWakeTrace ++ [.hReload, .hClearResult, .hTakeResult, .hDec, .hLast])
+    (p := fun s => decide (s.hret = some true ∧ s.resTaken = 1 ∧ s.resDrops = 0 ∧ s.futDrops = 1 ∧
+      s.deallocs = 1 ∧ s.slot = none ∧ s.slotSets = 1 ∧ s.slotDrops = 1 ∧ s.uaf = 0 ∧ s.bad = 0)) (by decide)
+  exact ⟨s, ht, of_decide_eq_true hp⟩
+
+/-- a run where the executor wakes the parked handle: park with 3, complete, `wake_by_ref(3)` -/
+example : ∃ s : RState, Trace true init
+      [.hPoll 3, .hStartSetting, .hWrite, .hFinishTrue, .eUnschedule, .ePollPending, .eUnschedule,
+       .ePollReady, .eFinishRunning, .eWake] s ∧
+      s.parked = some 3 ∧ s.woken = [3] ∧ s.polls = 2 ∧ deliveryStatement s := by
+  obtain ⟨s, ht, hr, hp⟩ := run_witness (fixed := true)
+    (ls := [.hPoll 3, .hStartSetting, .hWrite, .hFinishTrue, .eUnschedule, .ePollPending, .eUnschedule,
+       .ePollReady, .eFinishRunning, .eWake])
+    (p := fun s => decide (s.parked = some 3 ∧ s.woken = [3] ∧ s.polls = 2)) (by decide)
+  obtain ⟨h1, h2, h3⟩ := of_decide_eq_true hp
+  exact ⟨s, ht, h1, h2, h3, delivery hr⟩
+
+/-- ... and the woken handle polls again with another waker after the executor is gone: result taken,
+old waker dropped by `Task::drop`, nothing leaked -/
+example : ∃ s : RState, Trace true init
+      [.hPoll 3, .hStartSetting, .hWrite, .hFinishTrue, .eUnschedule, .ePollReady, .eFinishRunning,
+       .eWake, .eSetDropped, .eClearShared, .eDropSlot, .eDec, .hPoll 4, .hClearResult, .hTakeResult,
+       .hDec, .hLast] s ∧
+      s.woken = [3] ∧ s.hret = some true ∧ s.deallocs = 1 ∧ s.slot = none ∧ s.slotSets = 1 ∧ s.slotDrops = 1 := by
+  obtain ⟨s, ht, _, hp⟩ := run_witness (fixed := true)
+    (ls := [.hPoll 3, .hStartSetting, .hWrite, .hFinishTrue, .eUnschedule, .ePollReady, .eFinishRunning,
+       .eWake, .eSetDropped, .eClearShared, .eDropSlot, .eDec, .hPoll 4, .hClearResult, .hTakeResult,
+       .hDec, .hLast])
+    (p := fun s => decide (s.woken = [3] ∧ s.hret = some true ∧ s.deallocs = 1 ∧ s.slot = none ∧
+      s.slotSets = 1 ∧ s.slotDrops = 1)) (by decide)
+  exact ⟨s, ht, of_decide_eq_true hp⟩
+
+/-- handle dropped while the task is running: cancelled, the executor drops the future, no output -/
+example : ∃ s : RState, Trace true init
+      [.eUnschedule, .ePollPending, .hCancel true, .hSchedShared, .hSchedFinish, .hSetCancelled, .hDec,
+       .eUnschedule, .eSetDropped, .eClearShared, .eDropFuture, .eDec, .eLast] s ∧
+      s.eroute = .sawCancelled ∧ s.futDrops = 1 ∧ s.resTaken + s.resDrops = 0 ∧ s.deallocs = 1 ∧ s.polls = 1 := by
+  obtain ⟨s, ht, _, hp⟩ := run_witness (fixed := true)
+    (ls := [.eUnschedule, .ePollPending, .hCancel true, .hSchedShared, .hSchedFinish, .hSetCancelled, .hDec,
+       .eUnschedule, .eSetDropped, .eClearShared, .eDropFuture, .eDec, .eLast])
+    (p := fun s => decide (s.eroute = .sawCancelled ∧ s.futDrops = 1 ∧ s.resTaken + s.resDrops = 0 ∧
+      s.deallocs = 1 ∧ s.polls = 1)) (by decide)
+  exact ⟨s, ht, of_decide_eq_true hp⟩
+
+/-- OBSERVATION (current code, not a violation of the property text): the handle parks with waker 5,
+then the executor is dropped (`Executor::clear` ⇒ `Task::drop` without running): the waker is dropped
+from the slot WITHOUT being woken; the parked handle learns about the cancellation only if it is polled
+again for another reason. -/
+theorem executor_drop_does_not_wake :
+    ∃ s : RState, Trace true init
+      [.hPoll 5, .hStartSetting, .hWrite, .hFinishTrue, .eClear, .eSetDropped, .eClearShared,
+       .eDropFuture, .eDropSlot, .eDec] s ∧ Reachable true s ∧
+      s.parked = some 5 ∧ s.hpc = .idle ∧ s.woken = [] ∧ s.slot = none ∧ s.slotDrops = 1 ∧
+      s.eroute = .cleared ∧ s.epc = .done ∧ TaskState.isCancelled s.word = true ∧
+      TaskState.isCompleted s.word = false ∧ s.futDrops = 1 := by
+  obtain ⟨s, ht, hr, hp⟩ := run_witness (fixed := true)
+    (ls := [.hPoll 5, .hStartSetting, .hWrite, .hFinishTrue, .eClear, .eSetDropped, .eClearShared,
+       .eDropFuture, .eDropSlot, .eDec])
+    (p := fun s => decide (s.parked = some 5 ∧ s.hpc = .idle ∧ s.woken = [] ∧ s.slot = none ∧ s.slotDrops = 1 ∧
+      s.eroute = .cleared ∧ s.epc = .done ∧ TaskState.isCancelled s.word = true ∧
+      TaskState.isCompleted s.word = false ∧ s.futDrops = 1)) (by decide)
+  exact ⟨s, ht, hr, of_decide_eq_true hp⟩
+
+/-- F040, current code: the handle parks with waker 9 and is polled a second time (with the same waker)
+while the task completes. Its `load` is before `finish_running`, its `start_setting_waker` after: the
+snapshot has HAS_RESULT, so the section is left through `finish_setting_waker::<false>`. In between the
+executor runs `Task::drop`: `set_dropped` clears HAS_WAKER and, seeing SETTING_WAKER, leaves the waker
+to the handle — which never looks at it again. The last holder's `dec` snapshot has no HAS_WAKER. -/
+def wakerLeakTrace : List Label :=
+  [.eUnschedule, .ePollReady, .hPoll 9, .hStartSetting, .hWrite, .hFinishTrue, .hPoll 9,
+   .eFinishRunning, .eWake, .hStartSetting, .eSetDropped, .eClearShared, .eDec, .hFinishFalse,
+   .hClearResult, .hTakeResult, .hDec, .hLast]
+
+theorem waker_leak_run :
+    ∃ s : RState, Trace true init wakerLeakTrace s ∧ Reachable true s ∧
+      s.deallocs = 1 ∧ s.epc = .done ∧ s.hpc = .done ∧ s.slot = some 9 ∧ s.slotSets = 1 ∧ s.slotDrops = 0 ∧
+      s.woken = [9] ∧ s.hret = some true := by
+  obtain ⟨s, ht, hr, hp⟩ := run_witness (fixed := true) (ls := wakerLeakTrace)
+    (p := fun s => decide (s.deallocs = 1 ∧ s.epc = .done ∧ s.hpc = .done ∧ s.slot = some 9 ∧ s.slotSets = 1 ∧
+      s.slotDrops = 0 ∧ s.woken = [9] ∧ s.hret = some true)) (by decide)
+  exact ⟨s, ht, hr, of_decide_eq_true hp⟩
+
+/-- "every waker written into the slot has been dropped when the task is deallocated" is false for the current code -/
+theorem waker_leak_counterexample :
+    ¬ (∀ s : RState, Reachable true s → s.deallocs = 1 → s.slot = none ∧ s.slotSets = s.slotDrops) := by
+  intro h
+  obtain ⟨s, _, hr, hd, _, _, hs, _⟩ := waker_leak_run
+  have := (h s hr hd).1
+  simp [hs] at this
+
+/-- the word can be in SETTING_WAKER while the executor is about to read the slot: H's section then
+started after `finish_running` and leaves through `finish<false>` without touching the slot -/
+example : ∃ s : RState, Trace true init
+      [.hPoll 1, .hStartSetting, .hWrite, .hFinishTrue, .hPoll 1, .eUnschedule, .ePollReady,
+       .eFinishRunning, .hStartSetting] s ∧
+      s.epc = .wake ∧ eAccessesSlot s = true ∧ TaskState.isSettingWaker s.word = true ∧
+      s.hpc = .finishFalse ∧ hAccessesSlot s = false := by
+  obtain ⟨s, ht, _, hp⟩ := run_witness (fixed := true)
+    (ls := [.hPoll 1, .hStartSetting, .hWrite, .hFinishTrue, .hPoll 1, .eUnschedule, .ePollReady,
+       .eFinishRunning, .hStartSetting])
+    (p := fun s => decide (s.epc = .wake ∧ eAccessesSlot s = true ∧ TaskState.isSettingWaker s.word = true ∧
+      s.hpc = .finishFalse ∧ hAccessesSlot s = false)) (by decide)
+  exact ⟨s, ht, of_decide_eq_true hp⟩
+
 end Compio.Cex.C04
